@@ -232,3 +232,19 @@ Section BatchExceptGen.
     exists e', M_batch_pool_except f listed c18_except_chunksize k c18_except_chunksize pi items = Err e' /\ listed e' = false.
   Proof. apply batch_pool_except_unlisted_surfaces. Qed.
 End BatchExceptGen.
+
+(* ------------------------------------------------------------------ apply_pool = apply with the argument shapes of the source *)
+Section ShapesSrc.
+  Context {K V B : Type}.
+  Variable f : list (K + V) -> res B.
+
+  (* the pooled form hands the function what arg_gen() yields, the sequential form what apply_iter_items passes: they are the
+     same positional arguments for both yield types (checked against the regenerated shapes), hence the same container *)
+  Lemma apply_pool_eq_sequential_src (items_form : bool) kind k c pi (items : list (K * V)) :
+    1 <= k -> (kind = Procs -> 1 <= c) ->
+    M_apply_pool (shape_args (c18_pool_shape items_form)) f kind k c pi items
+    = S_apply (shape_args (c18_seq_shape items_form)) f items.
+  Proof.
+    intros Hk Hc. destruct items_form; exact (apply_pool_eq_sequential _ f kind k c pi items Hk Hc).
+  Qed.
+End ShapesSrc.
